@@ -233,6 +233,66 @@ func TestVFC05QueryLogPrograms(t *testing.T) {
 			n := runtime.Stack(buf, true)
 			t.Fatalf("stall: the query-log program completed no operation for 60s\n%s", buf[:n])
 		}
+		// After the program the log must still work: with recording switched
+		// on, more queries than the memory buffer holds are all retrievable
+		// (the buffer is flushed to the file when it is full).
+		if p.MemSize <= 20 && len(failures) == 0 {
+			call(http.MethodPut, "/control/querylog/config/update", `{"enabled":true,"anonymize_client_ip":false,"interval":86400000,"ignored":[]}`)
+			// Records submitted while a memory-to-disk flush is pending may be
+			// overwritten in the ring buffer (documented upstream), so each
+			// query waits for the pending flush, which must end.
+			settled := func() (ok bool) {
+				deadline := time.Now().Add(10 * time.Second)
+				for {
+					l.bufferLock.Lock()
+					pending := l.flushPending
+					l.bufferLock.Unlock()
+					if !pending {
+						return true
+					}
+					if time.Now().After(deadline) {
+						return false
+					}
+					time.Sleep(2 * time.Millisecond)
+				}
+			}
+			nTail := 2*int(p.MemSize) + 2
+			for i := 0; i < nTail; i++ {
+				if !settled() {
+					fail("after the program a flush of the memory buffer stays pending for ever (10 s); no further flush can start")
+
+					break
+				}
+				hst := fmt.Sprintf("tail-%d.after.example", i)
+				req := &dns.Msg{}
+				req.SetQuestion(hst+".", dns.TypeA)
+				l.Add(&AddParams{
+					Question: req, Answer: (&dns.Msg{}).SetReply(req), Result: &filtering.Result{}, ClientIP: net.IP{192, 0, 2, 200},
+					Upstream: "u", Elapsed: time.Millisecond,
+				})
+			}
+			got := -1
+			deadline := time.Now().Add(10 * time.Second)
+			for {
+				rec := httptest.NewRecorder()
+				routes["GET /control/querylog"](rec, httptest.NewRequest(http.MethodGet, "/control/querylog?search=after.example&limit=200", nil))
+				var doc struct {
+					Data []json.RawMessage `json:"data"`
+				}
+				if rec.Code == http.StatusOK && json.Unmarshal(rec.Body.Bytes(), &doc) == nil {
+					got = len(doc.Data)
+				}
+				if got == nTail || time.Now().After(deadline) {
+					break
+				}
+				time.Sleep(20 * time.Millisecond)
+			}
+			if got != nTail && len(failures) == 0 {
+				fail("after the program %d further queries were recorded (memory buffer of %d), the log returns %d of them", nTail, p.MemSize, got)
+			}
+			vfC05Q.Class("qlog:still_records_after_program")
+		}
+
 		// let an asynchronous flush started by the last Add finish
 		_ = l.Shutdown(ctx)
 
